@@ -1,34 +1,11 @@
-(* The bounded-exhaustive families put together and lifted to statements about EVERY schedule. *)
+(* The LARGER bounded-exhaustive families put together and lifted to statements about EVERY schedule.  Checked by coqc only:
+   not part of Properties_C16_micro.v (coqchk would re-evaluate the vm_compute proofs for the better part of an hour). *)
 From Coq Require Import List NArith Bool Arith.
 From QV Require Import Dict.Micro Dict.MicroFull Dict.MicroFullHist Dict.MicroFullProofs Dict.MicroFullWitness Dict.MicroFullBounded.
-From QV Require Import Dict.MicroFullBoundedA Dict.MicroFullBoundedS Dict.MicroFullBoundedB Dict.MicroFullBoundedC1 Dict.MicroFullBoundedC2
+From QV Require Import Dict.MicroFullCore Dict.MicroFullBoundedA Dict.MicroFullBoundedS Dict.MicroFullBoundedB Dict.MicroFullBoundedC1 Dict.MicroFullBoundedC2
                        Dict.MicroFullBoundedI1 Dict.MicroFullBoundedI2.
 Import ListNotations.
 Local Open Scope N_scope.
-(* conversion: unfold cfg_ok_sp / cfg_ok_steps before the explorers (whose fuel is a numeral) *)
-Local Strategy 1000 [explore_sp explore].
-
-Lemma family_sp_lift pol fam :
-  forallb (cfg_ok_sp pol) fam = true ->
-  forall c, In c fam -> forall g,
-    let s := frun_grants pol wit_sof N.eqb (cfg_init c) g in
-    fdone s = true -> lin (amap_of (fst c)) (hist_of s).
-Proof.
-  intros H c Hc g. cbv zeta. intros Hd. rewrite forallb_forall in H. specialize (H c Hc). unfold cfg_ok_sp in H.
-  pose proof (explore_sp_sound pol wit_sof N.eqb (chk_lin (fst c)) g 200 (cfg_init c) H Hd) as X.
-  unfold chk_lin in X. apply linb_iff. exact X.
-Qed.
-Lemma family_steps_lift pol fam :
-  forallb (cfg_ok_steps pol) fam = true ->
-  forall c, In c fam -> forall sched,
-    let s := frun pol wit_sof N.eqb (cfg_init c) sched in
-    fdone s = true -> lin (amap_of (fst c)) (hist_of s).
-Proof.
-  intros H c Hc sched. cbv zeta. intros Hd. rewrite forallb_forall in H. specialize (H c Hc). unfold cfg_ok_steps in H.
-  pose proof (explore_sound pol wit_sof N.eqb (chk_lin (fst c)) sched 400 (cfg_init c) H Hd) as X.
-  unfold chk_lin in X. apply linb_iff. exact X.
-Qed.
-
 Lemma forallb_app_true {A : Type} (f : A -> bool) l1 l2 : forallb f l1 = true -> forallb f l2 = true -> forallb f (l1 ++ l2) = true.
 Proof. intros H1 H2. rewrite forallb_app, H1, H2. reflexivity. Qed.
 
@@ -42,7 +19,7 @@ Qed.
 Lemma famI_ok : forallb (cfg_ok_sp pol_code) famI = true.
 Proof. unfold famI. apply forallb_app_true; [exact famI1_ok | exact famI2_ok]. Qed.
 
-(* the three statements of Properties_C16_micro.v *)
+(* the statements of MicroFullCore.v for the larger families *)
 Lemma patch_sp_all : forall c, In c patch_family_sp -> forall g,
   let s := frun_grants pol_patch wit_sof N.eqb (cfg_init c) g in fdone s = true -> lin (amap_of (fst c)) (hist_of s).
 Proof. exact (family_sp_lift pol_patch patch_family_sp patch_family_sp_ok). Qed.
